@@ -576,12 +576,14 @@ impl<'tcx> Cx<'tcx> {
         }
     }
 
-    fn body(&mut self, did: rustc_hir::def_id::LocalDefId) -> Option<J> {
+    fn body(&mut self, did: rustc_hir::def_id::LocalDefId, cloned: &Body<'tcx>) -> Option<J> {
         let tcx = self.tcx;
         let def_id = did.to_def_id();
         let kind = tcx.def_kind(def_id);
-        let body_ref = tcx.mir_built(did).borrow();
-        let body: &Body<'tcx> = &body_ref;
+        // (the body was cloned out of `mir_built` before anything else was asked of the compiler: exporting types can
+        // trigger borrowck of another function - e.g. to infer an `impl Trait` return type - which steals that function's
+        // `mir_built`)
+        let body: &Body<'tcx> = cloned;
         let mut o: Vec<(&str, J)> = vec![];
         o.push(("path", s(self.path(def_id))));
         o.push(("kind", s(format!("{:?}", kind))));
@@ -839,14 +841,26 @@ impl Callbacks for Cb {
         };
         let mut bodies = vec![];
         let mut errors = vec![];
+        // phase 1: take a private copy of every body while none has been stolen yet
+        let mut owned: Vec<(rustc_hir::def_id::LocalDefId, Body<'tcx>)> = vec![];
         for did in tcx.hir_body_owners() {
             let kind = tcx.def_kind(did.to_def_id());
             match kind {
                 DefKind::Fn | DefKind::AssocFn | DefKind::Closure | DefKind::SyntheticCoroutineBody => {}
                 _ => continue,
             }
-            match cx.body(did) {
-                Some(b) => bodies.push(b),
+            let st = tcx.mir_built(did);
+            if st.is_stolen() {
+                errors.push(s(tcx.def_path_str(did.to_def_id())));
+                continue;
+            }
+            let b: Body<'tcx> = st.borrow().clone();
+            owned.push((did, b));
+        }
+        // phase 2: export
+        for (did, b) in owned.iter() {
+            match cx.body(*did, b) {
+                Some(j) => bodies.push(j),
                 None => errors.push(s(tcx.def_path_str(did.to_def_id()))),
             }
         }
